@@ -3,4 +3,3 @@ package main
 import "verifharness/vkit"
 
 func c37(r *vkit.Run) {}
-func c38(r *vkit.Run) {}
